@@ -57,6 +57,7 @@ def protoOfJson (j : Json) : Except String Proto := do
 partial def repOfJson (j : Json) : Except String Rep := do
   match ← getStr j "k" with
   | "array" => return .array (← getDType j "d") (← getNats j "dims") (← getNats j "elems")
+  | "arraybe" => return .arrayBE (← getDType j "d") (← getNats j "dims") (← getNats j "elems")
   | "torch" =>
     -- either the elements, or a larger storage and the view's storage_offset
     match ← getOptNats j "storage" with
